@@ -90,6 +90,44 @@ func (V *Verifier) finishAxioms(sc *Script) {
 	}
 }
 
+// enclosingCase: the first expression of the innermost switch case clause containing pos ("" if none).
+func (V *Verifier) enclosingCase(pos token.Pos) string {
+	if !pos.IsValid() {
+		return ""
+	}
+	tf := V.P.Fset.File(pos)
+	if tf == nil {
+		return ""
+	}
+	var af *ast.File
+	for _, p := range V.P.Pkgs {
+		for _, f := range p.Syntax {
+			if V.P.Fset.File(f.Pos()) == tf {
+				af = f
+			}
+		}
+	}
+	if af == nil {
+		return ""
+	}
+	best := ""
+	ast.Inspect(af, func(n ast.Node) bool {
+		if n == nil {
+			return false
+		}
+		if !(n.Pos() <= pos && pos < n.End()) {
+			return false
+		}
+		if cc, ok := n.(*ast.CaseClause); ok && len(cc.List) > 0 {
+			var buf bytes.Buffer
+			printer.Fprint(&buf, token.NewFileSet(), cc.List[0])
+			best = buf.String()
+		}
+		return true
+	})
+	return best
+}
+
 // srcText gives a short, line-independent rendering of the source expression at pos (for stable obligation names).
 func (V *Verifier) srcText(v interface{}, pos token.Pos) string {
 	if !pos.IsValid() {
@@ -637,7 +675,10 @@ func (V *Verifier) verifyFunction(fn *ssa.Function, lockMode bool) *FnResult {
 			for _, r := range group {
 				v, err := env.trans(r.Expr)
 				if err != nil {
-					V.fatal("%s requires %q: %v", c.Key, r.Text, err)
+					ex.inRequires = false
+					ex.oblige(f, entry, "requires", "entry:"+r.Label+":does-not-attach", r.Label, fn.Pos(), tFalse, "the contract no longer attaches to the code ("+err.Error()+"): "+r.Text)
+					ex.inRequires = true
+					continue
 				}
 				sc.assert(v.t)
 			}
